@@ -263,6 +263,8 @@ def float_conv(rep, ctx):
         key = "%s#to_f64" % short(caller)
         if any(caller.startswith(p) for p in tab["float_conv_callers"]):
             r.ok(key, "documented arithmetic / comparator", c.where(), nontrivial=False)
+        elif caller in CONV:
+            r.ok(key, "one conversion impl delegating to another", c.where(), nontrivial=False)
         else:
             r.bad(key, "%s converts a JSON number to f64 (%s): an integer passing through it is rounded to 53 bits"
                   % (caller, c.full), c.where())
